@@ -793,6 +793,12 @@ func (c *Ctx) checkLayoutSemantics(r *Report, ro *Roles, rule string) (jsonOK, t
 			evs = append(evs, evSpec{fields: []fieldSpec{single(pick("int 7"), "n")}, file: f, line: 123456, width: wd})
 		}
 	}
+	// (3b') file names with characters a JSON string must escape (a Windows path, a quote), short and cut
+	for _, f := range []string{`C:\src\app\main.go`, `dir/a"b".go`, `\`} {
+		for _, wd := range []int{8, 48} {
+			evs = append(evs, evSpec{fields: []fieldSpec{single(pick("int 7"), "n")}, file: f, line: 9, width: wd})
+		}
+	}
 	// (3c) the message field, with the package's string variables (a configurable message key) left alone and set
 	// to a value that needs escaping
 	for _, sv := range []string{"", "m\"k\n\xff\\"} {
